@@ -168,6 +168,10 @@ def guard_py(tree, rt):
     return True
 
 
+def _entry(x):
+    return int(x) if isinstance(x, (int, float)) and not isinstance(x, bool) or isinstance(x, bool) else repr(x)
+
+
 def walk_ir(nodes, out):
     for n in nodes:
         t = type(n).__name__
@@ -175,9 +179,11 @@ def walk_ir(nodes, out):
             v = str(n.value)
             out.append(["len", int(v)] if v.isdigit() else ["rt", v])
         elif t == "LedFlashPattern":
-            out.append(["flash", [int(x) for x in n.pattern]])
+            # read when parsing is complete, like the emitter does: a node that shares its list with the constant
+            # environment shows the list's FINAL contents here (and possibly entries that are not numbers at all)
+            out.append(["flash", [_entry(x) for x in n.pattern]])
         elif t == "LCDGlyph":
-            out.append(["glyph", [int(x) for x in n.bitmap]])
+            out.append(["glyph", [_entry(x) for x in n.bitmap]])
         elif t == "IfStatement":
             for b in n.branches:
                 walk_ir(b.body, out)
